@@ -466,7 +466,26 @@ def r5_validation(repo: Repo, rep):
               f"effects {eff} stores {stores}", str(eff + stores))
 
 
+def r6_weight_kept(repo: Repo, rep):
+    R = rep.rule("R-C07-6", "a condition stores the weight it is given unchanged (a learnable weight handed as nn.Parameter is registered and optimised)", floor=1,
+                 why="coercing the weight to a number replaces a learnable tensor by a snapshot")
+    cond = repo.cls("problem.conditions.condition.Condition")
+    init = cond.methods.get("__init__")
+    if init is None:
+        raise AnalysisError("Condition.__init__ vanished")
+    rep.saw(init)
+    for p in paths(init.node, expand_self=False):
+        if p.ret is RAISE:
+            continue
+        w = p.attrs.get("self.weight")
+        rep.check(R, w is not None and dump(w) == "weight", init.site(), init.fq, "self.weight = weight", f"self.weight = {dump(w)}", f"self.weight = {dump(w)}")
+        break
+
+
 def run(repo: Repo, rep):
+    r6_weight_kept(repo, rep)
+    from .c19 import r4_solver_hooks  # the configured scheduler steps against the dummy loader: its length must not cut the run into epochs
+    r4_solver_hooks(repo, rep)
     r1_step_shape(repo, rep)
     r2_optimizer(repo, rep)
     r3_registration(repo, rep)
